@@ -1,5 +1,6 @@
 //! The properties' own predicates, evaluated on results of the real crate.
 use crate::gen::{self, B};
+use crate::leaf;
 use crate::{run, Case};
 use cteepbd::types::*;
 use serde_json::{json, Value};
@@ -110,6 +111,12 @@ pub fn c03(eps: &[(f32, EnergyPerformance)]) -> Option<String> {
         }
     }
     if !r3eq(e0.balance.we.b, e0.balance.we.a) { return Some("k=0: step B != step A".into()); }
+    // every figure other than step B, the k_exp-weighted exported term and the renewable shares is the same at every k_exp
+    let fixed = |e: &EnergyPerformance| -> leaf::Leaves { leaf::results(e, false).into_iter().filter(|(p, _)| !leaf::k_dependent(p)).collect() };
+    let l0 = fixed(e0);
+    for (k, e) in eps {
+        if let Some(d) = leaf::diff(&l0, &fixed(e), 1.0) { return Some(format!("k={}: a figure that does not involve k_exp changes with it: {}", k, d)); }
+    }
     None
 }
 
@@ -173,6 +180,7 @@ pub fn c04(ep: &EnergyPerformance) -> Option<String> {
     for (mname, a, bm) in [("used.epus_by_cr", &m.used.epus_by_cr, &b.used.epus_by_cr), ("prod.by_cr", &m.prod.by_cr, &b.prod.by_cr), ("del.grid_by_cr", &m.del.grid_by_cr, &b.del.grid_by_cr)] { for (s, v) in bm { if a.get(s).map(|w| eq(*w, v * k)) != Some(true) { return Some(format!("per-m2 {}[{}] wrong or missing", mname, s)); } } }
     for (mname, a, bm) in [("prod.by_src", &m.prod.by_src, &b.prod.by_src), ("prod.epus_by_src", &m.prod.epus_by_src, &b.prod.epus_by_src)] { for (s, v) in bm { if a.get(s).map(|w| eq(*w, v * k)) != Some(true) { return Some(format!("per-m2 {}[{}] wrong or missing", mname, s)); } } }
     for (s, v) in &b.we.b_by_srv { if let Some(w) = m.we.b_by_srv.get(s) { if !(eq(w.nren, v.nren * k) && eq(w.ren, v.ren * k) && eq(w.co2, v.co2 * k)) { return Some(format!("per-m2 step B of service {} wrong", s)); } } else { return Some("per-m2 by-service entry missing".into()); } }
+    if let Some(d) = leaf::diff(&leaf::of(b), &leaf::of(m), k as f64) { return Some(format!("per-m2 figure is not the absolute figure divided by the area {}: {}", ep.arearef, d)); }
     for (s, v) in &b.we.a_by_srv { if let Some(w) = m.we.a_by_srv.get(s) { if !(eq(w.nren, v.nren * k) && eq(w.ren, v.ren * k) && eq(w.co2, v.co2 * k)) { return Some(format!("per-m2 step A of service {} = {} wrong (absolute {} / area {})", s, w, v, ep.arearef)); } } else { return Some("per-m2 by-service entry missing".into()); } }
     None
 }
@@ -227,6 +235,10 @@ fn permute_text(t: &str, how: usize) -> String {
         f[..first_val].iter().cloned().chain(vals.into_iter()).collect::<Vec<_>>().join(",")
     }).collect::<Vec<_>>().join("\n")
 }
+/// every annual figure of two results (all fields of the serialized result that are not per-step series), compared by path
+fn annual_diff(a: &EnergyPerformance, b: &EnergyPerformance) -> Option<String> {
+    leaf::diff(&leaf::results(a, true), &leaf::results(b, true), 1.0)
+}
 fn sig_eq(a: &[f32], b: &[f32]) -> Option<usize> {
     a.iter().zip(b).position(|(x, y)| !eq(*x, *y))
 }
@@ -246,11 +258,11 @@ pub fn check(pid: &str, seed: u64) -> Value {
     if ["C05", "C06", "C07", "C08", "C10", "C16"].contains(&pid) {
         let mut rep = crate::preds2::Rep { evals: 0, nontrivial: 0, failures: vec![], samples: vec![] };
         let (domain, rule) = match pid {
-            "C05" => { crate::preds2::c05(&mut rep); crate::preds2::c05_special(&mut rep); crate::preds2::c05_outputs(&mut rep); ("EAMBIENTE / TERMOSOLAR x two systems with ids from {-1,0,1} (also the same id twice) x use in {0, 2, (3,1)} x declared production in {none, 1, 5, (0,4)} x one use, two EPB uses, or an EPB and a non-EPB use per system; 2 steps", "every generated file has ambient / solar components") }
-            "C06" => { crate::preds2::c06(&mut rep); crate::preds2::c06_special(&mut rep); ("system 1 with services {CAL},{CAL,ACS},{CAL,REF},{CAL,ACS,REF} x outputs from {30,10,-10,(30,0),(10,0),(0,20)} x AUX in {4,(4,2),(0,3)} x with/without a second single-service system with AUX x electricity otherwise present or absent", "multi-service systems are the non-trivial cases") }
-            "C16" => { crate::preds2::c16(&mut rep, seed); ("the repository's test_data component files, the special buildings of the other predicates, 21 hand-written edge shapes (AUX without consumption, DHW demand with biomass and PV, empty / short / non-numeric / non-finite fields, different lengths) and 60 seeded token- or line-level corruptions (drop, duplicate, swap, replace) of each of the first 20 files; each parsed, evaluated with the full and the stripped factor set in both load-matching modes and passed to the DHW renewable fraction, under catch_unwind", "an input is non-trivial when it parses and at least one evaluation succeeds") }
-            "C10" => { crate::preds2::c10(&mut rep, seed); ("6 base files x {6 random line orders, comments/blank/header/BOM/whitespace and their combinations, ids renumbered, id 0 omitted, one component split in two lines} + 60 repeated evaluations each", "every rewriting is non-trivial") }
-            _ => { crate::preds2::c07(&mut rep, seed); ("factor files over every non-empty subset of {ELECTRICIDAD,GASNATURAL,BIOMASA,EAMBIENTE,RED1} with pairwise distinct marker values x 8 sets of user-given export factors x user RED1/RED2 {none, red1, both}; then up to 12 buildings over the carriers of the set (PV surplus, cogeneration with one or two fuels, non-EPB uses of electricity / ambient heat / solar thermal, outputs and auxiliaries) x (k_exp, load matching) in {(0,off),(0.5,on)}, each with the full and the stripped set", "every accepted factor file is non-trivial") }
+            "C05" => { crate::preds2::c05(&mut rep); crate::preds2::c05_special(&mut rep); crate::preds2::c05_outputs(&mut rep); ("EAMBIENTE / TERMOSOLAR x two systems with ids from {-1,0,1} (also the same id twice) x use in {0, 2, (3,1)} x declared production in {none, 1, 5, (0,4)} x one use, two EPB uses, or an EPB and a non-EPB use per system; 2 steps; + hand-written files (interleaved systems, repeated demand lines, declared production carrying the comment of the automatic completion, outputs of either sign and of negative-id systems)", "every generated file has ambient / solar components") }
+            "C06" => { crate::preds2::c06(&mut rep); crate::preds2::c06_special(&mut rep); ("system 1 with services {CAL},{CAL,ACS},{CAL,REF},{CAL,ACS,REF} x outputs from {30,10,-10,(30,0),(10,0),(0,20)} x AUX in {4,(4,2),(0,3)} x with/without a second single-service system with AUX x electricity otherwise present or absent; + hand-written systems (several AUX lines, negative system ids, cogeneration-only systems)", "multi-service systems are the non-trivial cases") }
+            "C16" => { crate::preds2::c16(&mut rep, seed); ("the repository's test_data component files, the special buildings of the other predicates, 21 hand-written edge shapes (AUX without consumption, DHW demand with biomass and PV, empty / short / non-numeric / non-finite fields, different lengths) and 60 seeded token- or line-level corruptions (drop, duplicate, swap, replace) of each of the first 20 files; each parsed, evaluated with the full and the stripped factor set in both load-matching modes and passed to the DHW renewable fraction, under catch_unwind; + long lines of unknown kind with multi-byte text at every byte offset 45..115, metadata accessors, value parsers and corrupted factor files", "an input is non-trivial when it parses and at least one evaluation succeeds") }
+            "C10" => { crate::preds2::c10(&mut rep, seed); ("7 base files (every figure of the serialized result compared by path) x {6 random line orders, comments/blank/header/BOM/whitespace and their combinations, ids renumbered, id 0 omitted, one component split in two lines} + 60 repeated evaluations each", "every rewriting is non-trivial") }
+            _ => { crate::preds2::c07(&mut rep, seed); ("factor files over every non-empty subset of {ELECTRICIDAD,GASNATURAL,BIOMASA,EAMBIENTE,RED1} with pairwise distinct marker values x 8 sets of user-given export factors x user RED1/RED2 {none, red1, both}; then up to 12 buildings over the carriers of the set (PV surplus, cogeneration with one or two fuels, non-EPB uses of electricity / ambient heat / solar thermal, outputs and auxiliaries) x (k_exp, load matching) in {(0,off),(0.5,on)}, each with the full and the stripped set; + hand-written buildings with the regulatory sets and component sets built in code with an unassigned auxiliary component", "every accepted factor file is non-trivial") }
         };
         let fails: Vec<Value> = rep.failures.into_iter().filter(|f| { let c = f["clause"].as_str().unwrap_or(""); match pid { "C07" => c.starts_with("C07"), "C08" => c.starts_with("C08"), _ => true } }).collect();
         return json!({"property": pid, "seed": seed, "evaluations": rep.evals, "distinct_nontrivial": rep.nontrivial, "exhaustive": true, "domain": domain, "rule": rule, "failures": fails, "samples": rep.samples});
@@ -339,7 +351,8 @@ pub fn check(pid: &str, seed: u64) -> Value {
                 "C09" => {
                     for k in [0.0f32, 1.0] {
                         evals += 1;
-                        let base = match run(&tcase(t, k, 1.0, lm)) { Ok(e) => annual_sig2(&e), Err(_) => continue };
+                        let base_ep = match run(&tcase(t, k, 1.0, lm)) { Ok(e) => e, Err(_) => continue };
+                        let base = annual_sig2(&base_ep);
                         nontrivial += 1;
                         for (name, how) in [("reversed", 0usize), ("rotated by one", 1), ("rotated by two", 2)] {
                             let var = permute_text(t, how);
@@ -348,6 +361,7 @@ pub fn check(pid: &str, seed: u64) -> Value {
                             if let Ok(e) = run(&tcase(&var, k, 1.0, lm)) {
                                 let sg = annual_sig2(&e);
                                 if let Some(p) = sig_eq(&base, &sg) { failures.push(json!({"clause": "C09", "components": t, "k_exp": k, "load_matching": lm, "what": format!("annual result #{} changes when the steps are {}: {} vs {}", p, name, base[p], sg[p])})); }
+                                else if let Some(d) = annual_diff(&base_ep, &e) { failures.push(json!({"clause": "C09", "components": t, "k_exp": k, "load_matching": lm, "what": format!("an annual figure changes when the steps are {}: {}", name, d)})); }
                             }
                         }
                     }
@@ -376,6 +390,7 @@ pub fn check(pid: &str, seed: u64) -> Value {
                     nontrivial += 1;
                     let (sa, sb) = (annual_sig2(&a), annual_sig2(&b));
                     if let Some(p) = sig_eq(&sa, &sb) { failures.push(json!({"clause": "C09", "components": name, "load_matching": lm, "what": format!("{}: annual result #{} = {} instead of {}", name, p, sb[p], sa[p])})); }
+                    else if let Some(d) = annual_diff(&a, &b) { failures.push(json!({"clause": "C09", "components": name, "load_matching": lm, "what": format!("{}: an annual figure differs: {}", name, d)})); }
                 } else { failures.push(json!({"clause": "C09", "components": name, "what": "evaluation failed"})); }
             }
         }
@@ -499,7 +514,8 @@ pub fn check(pid: &str, seed: u64) -> Value {
                 for lm in [false, true] {
                     for k in [0.0f32, 1.0] {
                         evals += 1;
-                        let base = match run(&case(steps, "PENINSULA", k, 1.0, lm)) { Ok(e) => annual_sig(&e), Err(_) => continue };
+                        let base_ep = match run(&case(steps, "PENINSULA", k, 1.0, lm)) { Ok(e) => e, Err(_) => continue };
+                        let base = annual_sig(&base_ep);
                         if nt { nontrivial += 1; }
                         let mut rev = steps.clone(); rev.reverse();
                         let mut rot = steps.clone(); rot.rotate_left(1);
@@ -507,6 +523,7 @@ pub fn check(pid: &str, seed: u64) -> Value {
                             evals += 1;
                             if let Ok(e) = run(&case(&var, "PENINSULA", k, 1.0, lm)) {
                                 if let Some(p) = sig_eq(&base, &annual_sig(&e)) { fail(&mut failures, steps, k, 1.0, lm, format!("annual result #{} changes when the steps are {}: {} vs {}", p, name, base[p], annual_sig(&e)[p])); }
+                                else if let Some(d) = annual_diff(&base_ep, &e) { fail(&mut failures, steps, k, 1.0, lm, format!("an annual figure changes when the steps are {}: {}", name, d)); }
                             }
                         }
                         for m in [2usize, 3] {
@@ -515,6 +532,7 @@ pub fn check(pid: &str, seed: u64) -> Value {
                             evals += 1;
                             if let Ok(e) = run(&case(&sub, "PENINSULA", k, 1.0, lm)) {
                                 if let Some(p) = sig_eq(&base, &annual_sig(&e)) { fail(&mut failures, steps, k, 1.0, lm, format!("annual result #{} changes when every step is split in {}: {} vs {}", p, m, base[p], annual_sig(&e)[p])); }
+                                else if let Some(d) = annual_diff(&base_ep, &e) { fail(&mut failures, steps, k, 1.0, lm, format!("an annual figure changes when every step is split in {}: {}", m, d)); }
                             }
                         }
                         if idx % 400 == 4 && samples.len() < 4 { samples.push(json!({"components": gen::text(steps), "k_exp": k, "load_matching": lm})); }
@@ -538,6 +556,13 @@ pub fn check(pid: &str, seed: u64) -> Value {
                                 if !eq(s[p], want) { fail(&mut failures, steps, 0.5, 2.0, lm, format!("scaling every energy by {}: result #{} = {} instead of {}", c, p, s[p], want)); break; }
                             }
                             for (cr, b) in &e.balance_cr { if let Some(b0) = e0.balance_cr.get(cr) { if b.f_match.iter().zip(&b0.f_match).any(|(x, y)| !eq(*x, *y)) { fail(&mut failures, steps, 0.5, 2.0, lm, format!("scaling by {} changes the load matching factor of {}", c, cr)); } } }
+                            // every figure of the result scales (renewable shares and matching factors stay)
+                            let unit = |p: &String| p.starts_with("rer") || p.contains(".f_match[");
+                            let (l0, l1) = (leaf::results(&e0, false), leaf::results(&e, false));
+                            let pick = |l: &leaf::Leaves, u: bool| -> leaf::Leaves { l.iter().filter(|(p, _)| unit(p) == u).map(|(p, v)| (p.clone(), *v)).collect() };
+                            if let Some(d) = leaf::diff(&pick(&l0, false), &pick(&l1, false), c as f64).or_else(|| leaf::diff(&pick(&l0, true), &pick(&l1, true), 1.0)) {
+                                fail(&mut failures, steps, 0.5, 2.0, lm, format!("scaling every energy by {}: {}", c, d));
+                            }
                         }
                         evals += 1;
                         if let Ok(e) = run(&case(steps, "PENINSULA", 0.5, 2.0 * c, lm)) {
@@ -579,7 +604,7 @@ pub fn check(pid: &str, seed: u64) -> Value {
     }
     json!({
         "property": pid, "seed": seed, "evaluations": evals, "distinct_nontrivial": nontrivial, "exhaustive": true,
-        "domain": "every single-step building over cal_el,pv in {0,.5,1,2,3} x nepb_el,chp in {0,1,3} x acs_el in {0,1} x gas,amb in {0,2} (1800; some predicates use a stated stride) + fixed special multi-step buildings and seeded 2-3 step buildings (60 quick / 600 thorough); PENINSULA factors; both load-matching modes",
+        "domain": "every single-step building over cal_el,pv in {0,.5,1,2,3} x nepb_el,chp in {0,1,3} x acs_el in {0,1} x gas,amb in {0,2} (1800; some predicates use a stated stride) + fixed special multi-step buildings and seeded 2-3 step buildings (60 quick / 600 thorough); PENINSULA factors (all four locations for the C14 text cases); both load-matching modes; text cases of each property (hand-written buildings, 30/39/52-step and 8760-step series, areas 0.004..12.345, component sets built in code for C01); comparisons between two evaluations (C03, C04 per m2, C09, C10, C11) cover every numeric field of the serialized result by path, not a list of fields",
         "rule": "a case is non-trivial when it has on-site or cogenerated electricity together with EPB electricity use",
         "failures": failures.into_iter().chain(known.into_iter()).collect::<Vec<_>>(), "samples": samples,
     })
